@@ -479,7 +479,10 @@ def assemble(prop, tier, seed, spec, quals, lem, results, t_start, early_standin
     if not obs and not errors:
         status = 3
         lines.append(f"CHECKER-ERROR property={prop} zero obligations")
-    vac = [o for o in obs if o.get("hyps_sat") == "unsat"]
+    def _dead(o):
+        con_ = REGISTRY.get(o["name"].split("/")[0])
+        return con_ is not None and any(t in o["name"] for t in getattr(con_, "dead_paths", ()))
+    vac = [o for o in obs if o.get("hyps_sat") == "unsat" and not _dead(o)]
     if vac:
         status = 3 if status == 0 else status
         lines.append(f"CHECKER-ERROR property={prop} vacuous hypotheses in {vac[0]['name']}")
